@@ -38,10 +38,22 @@ def check_probe(P, ctx):
             ctx.check(probe.stop_set(F) == probe.stop_set(ref) and len(probe.stop_set(F)) == 2, rule, f + ':stop', s,
                       'a lookup stops exactly at an empty slot or when its distance exceeds the resident\'s probe distance',
                       ['here: %s' % sorted(probe.stop_set(F)), '%s: %s' % (refname, sorted(probe.stop_set(ref)))])
-            hits = [c for n, c in F.conds if ir.fmt(c) == 'eq(Table_Key(arg0, I), arg1)']
+            hits = [(n, c) for n, c in F.conds if ir.fmt(c) == 'eq(Table_Key(arg0, I), arg1)']
             ctx.check(len(hits) == 1, rule, f + ':hit', s, 'the hit test is eq(stored key of the probed slot, sought key)')
-    a, b = probe.probe_function_form(P, 'Table_Probe'), probe.probe_function_form(P, 'GC_Probe')
-    ctx.check(a is not None and a == b, rule, 'Table_Probe', site(P.fn('Table_Probe')), 'probe distance = i - (h-1), wrapped by the slot count when negative (same function as the registry\'s)')
+            # every occupied slot within reach is compared: the probe moves on only over the miss edge of that test
+            if len(hits) == 1:
+                hn = hits[0][0]
+                advn = [n for (n, var, op, rhs) in F.writes if var == 'i']
+                g = F.g
+                skipped = [a for a in advn if a['id'] in g.reach_from(F.hnode['id'], cut_edges=[(hn['id'], False)], cut_nodes=[x['id'] for x in advn if x is not a])]
+                ctx.check(bool(advn) and not skipped, rule, f + ':every-slot-compared', s,
+                          'the probe advances to the next slot only after the stored key of the current slot was compared and differed '
+                          '(a slot skipped without comparison hides a present key)',
+                          ['the advance at %s is reachable without the comparison' % g.describe(skipped[0])] if skipped else None)
+    why = probe.probe_function_eval(P, 'Table_Probe')
+    ctx.check(why is None, rule, 'Table_Probe', site(P.fn('Table_Probe')),
+              'the probe distance of a resident is (slot - home) modulo the slot count, non-negative also for entries that wrapped past the end of the table '
+              '(evaluated with exact C conversions for table sizes 1..7)', [why] if why else None)
     ctx.floor(rule, 15)
     return fr
 
